@@ -296,7 +296,8 @@ def run_lifecycle(ctx):
                 ids = []
                 for i in range(N):
                     f = ArchiveFile.create(acq=acq, name=f"f{i}", size_b=1, md5sum="0" * 32)
-                    ids.append(ArchiveFileCopy.create(file=f, node=node, has_file="Y", wants_file="Y").id)
+                    # tracked copies in every state the walker must visit: healthy, corrupt, suspect (all but "N")
+                    ids.append(ArchiveFileCopy.create(file=f, node=node, has_file=rng.choice("YYYXM"), wants_file="Y").id)
                 un = upd.UpdateableNode(FairMultiFIFOQueue(), StorageNode.get(id=node.id))
                 permanent = set(ids)
                 bound = -(-N // k) + 1
